@@ -49,7 +49,17 @@ impl QueryBuilder for SqliteQueryBuilder {
             UnionType::Except => write!(sql, " EXCEPT ").unwrap(),
             UnionType::All => write!(sql, " UNION ALL ").unwrap(),
         }
+        // SQLite has no parenthesised compound operands: an operand that is itself a compound
+        // select is grouped through a derived table, otherwise `A EXCEPT (B UNION C)` would be
+        // flattened into `(A EXCEPT B) UNION C`.
+        let needs_grouping = !select_statement.unions.is_empty();
+        if needs_grouping {
+            write!(sql, "SELECT * FROM (").unwrap();
+        }
         self.prepare_select_statement(select_statement, sql);
+        if needs_grouping {
+            write!(sql, ")").unwrap();
+        }
     }
 
     fn prepare_query_statement(&self, query: &SubQueryStatement, sql: &mut dyn SqlWriter) {
